@@ -44,17 +44,19 @@ func BuildMapCodec(p CodecBuilder, registry CodecRegistry, typ reflect.Type, tag
 	if err != nil {
 		return nil, fmt.Errorf("failed to find codec for map value %s. %w", typ.Elem().Name(), err)
 	}
-	for vc := valueCodec; ; {
-		if _, ok := vc.(ProtoSliceWrapper); ok {
-			// The value would be written as a repeated field, but a map entry
-			// has just the one value
-			return nil, fmt.Errorf("maps with slice values written as repeated fields are not supported")
+	for _, kv := range [...]Codec{keyCodec, valueCodec} {
+		for {
+			if _, ok := kv.(ProtoSliceWrapper); ok {
+				// The key or value would be written as a repeated field, but a
+				// map entry has just the one key and the one value
+				return nil, fmt.Errorf("maps with slices written as repeated fields as keys or values are not supported")
+			}
+			pw, ok := kv.(PointerWrapper)
+			if !ok {
+				break
+			}
+			kv = pw.Underlying
 		}
-		pw, ok := vc.(PointerWrapper)
-		if !ok {
-			break
-		}
-		vc = pw.Underlying
 	}
 
 	c := MapCodec{
